@@ -23,6 +23,7 @@ CONSTANTS Palette,    \* abstract inputs / operations
 Fresh == [ib |-> 0, plen |-> 0, first |-> 0, qsat |-> FALSE, failed |-> FALSE]
 ParserGarbage(x) ==
     CASE x = "geo"       -> [ib |-> 30, plen |-> 0, first |-> 128, qsat |-> TRUE, failed |-> FALSE]
+      [] x = "rdgeo"     -> [ib |-> 30, plen |-> 0, first |-> 128, qsat |-> TRUE, failed |-> FALSE]
       [] x = "har"       -> [ib |-> 40, plen |-> 0, first |-> 128, qsat |-> TRUE, failed |-> FALSE]
       [] x = "abortdeep" -> [ib |-> 24, plen |-> 4, first |-> 128, qsat |-> FALSE, failed |-> TRUE]
       [] x = "path200"   -> [ib |-> 1000, plen |-> 200, first |-> 128, qsat |-> TRUE, failed |-> TRUE]
@@ -30,7 +31,7 @@ ParserGarbage(x) ==
       [] x = "scalar"    -> [ib |-> 3, plen |-> 0, first |-> 16, qsat |-> TRUE, failed |-> FALSE]
       [] x = "ndjson"    -> [ib |-> 7, plen |-> 0, first |-> 128, qsat |-> TRUE, failed |-> FALSE]
       [] OTHER           -> Fresh
-UsesParser(x) == x \in {"geo", "har", "abortdeep", "path200", "truncjson", "scalar", "ndjson", "huge", "blanklines", "wsjson"}
+UsesParser(x) == x \in {"geo", "har", "abortdeep", "path200", "truncjson", "scalar", "ndjson", "huge", "blanklines", "wsjson", "rdgeo"}
 \* bytes left unread in the pooled bufio.Reader
 ReaderGarbage(x) == CASE x = "csvabort" -> 4000 [] x = "csvtsvabort" -> 4 [] x = "csvok" -> 0 [] OTHER -> 0
 UsesReader(x) == x \in {"csvabort", "csvtsvabort", "onerec", "csvok", "scalar", "plain"}    \* text inputs that reach the CSV check
